@@ -1,4 +1,5 @@
 import NasdaqModel.Lemmas.GenFixLemmas
+import NasdaqModel.Spec.FixDictEnum
 /-
 Lemmas for C16, part 2: the stateful, lazily caching, backwards-walking `parse` computes the pure substitution semantics
 (`xItems` / `xComp`: component references replaced in place) on dictionaries whose component references are acyclic.
@@ -516,7 +517,36 @@ theorem handleSections_fields {types : TypeTable} {root : List CompXml} {fuel : 
 
 /-! ### from the guard `wfDict` to the hypotheses used above -/
 
-/-- `wfDict` unpacked -/
+/-- the guard with identifier-character enumerated values implies the one with printable enumerated values -/
+theorem wfEnum_wfEnumE {ty : TyCls} {v : EnumXml} (h : wfEnum ty v = true) : wfEnumE ty v = true := by
+  simp only [wfEnum, Bool.and_eq_true] at h
+  obtain ⟨hid, hk⟩ := h
+  simp only [wfEnumE, Bool.and_eq_true]
+  refine ⟨hid, ?_⟩
+  cases hq : (ty.kind == PyKind.str || ty.kind == PyKind.bool) with
+  | false => rw [hq] at hk; simpa using hk
+  | true =>
+    rw [hq] at hk
+    simp only [if_true, Bool.and_eq_true, List.all_eq_true] at hk ⊢
+    refine ⟨hk.1, fun c hc => ?_⟩
+    have := hk.2 c hc
+    simp only [isIdentChar, isIdentStart, isDigit, Bool.or_eq_true, Bool.and_eq_true, decide_eq_true_eq, beq_iff_eq] at this
+    simp only [isPrintable, Bool.and_eq_true, decide_eq_true_eq]
+    omega
+
+theorem wfFieldXml_wfFieldXmlE {types : TypeTable} {f : FieldXml} (h : wfFieldXml types f = true) : wfFieldXmlE types f = true := by
+  simp only [wfFieldXml, Bool.and_eq_true] at h
+  simp only [wfFieldXmlE, Bool.and_eq_true]
+  refine ⟨h.1, ?_⟩
+  cases hty : aget f.type types with
+  | none => rw [hty] at h; exact absurd h.2 (by simp)
+  | some ty =>
+    have h2 := h.2
+    rw [hty] at h2
+    simp only [Bool.and_eq_true, List.all_eq_true] at h2 ⊢
+    exact ⟨⟨fun v hv => wfEnum_wfEnumE (h2.1.1 v hv), h2.1.2⟩, h2.2⟩
+
+/-- `wfDict` / `wfDictE` unpacked (`fieldsOk` is the weaker of the two field guards: enumerated values over printable ASCII) -/
 structure WF (d : Dict) (types : TypeTable) : Prop where
   htypes : supportedTypes d.version = .ok types
   fieldsLast : fieldsLast d.sections = true
@@ -524,7 +554,7 @@ structure WF (d : Dict) (types : TypeTable) : Prop where
   oneH : atMostOne isHeaderSec d.sections = true
   oneT : atMostOne isTrailerSec d.sections = true
   oneM : atMostOne isMessagesSec d.sections = true
-  fieldsOk : ∀ f ∈ d.sections.flatMap fieldsOf, wfFieldXml types f = true
+  fieldsOk : ∀ f ∈ d.sections.flatMap fieldsOf, wfFieldXmlE types f = true
   fnames : ((d.sections.flatMap fieldsOf).map (·.name)).Nodup
   cnames : ((allComps d).map (·.name)).Nodup
   depth : ∀ c ∈ allComps d, compDepthOk (allComps d) (allComps d).length c.name = true
@@ -536,6 +566,16 @@ structure WF (d : Dict) (types : TypeTable) : Prop where
 
 theorem wf_unpack {d : Dict} (h : wfDict d = true) : ∃ types, WF d types := by
   unfold wfDict at h
+  split at h
+  · cases h
+  · rename_i types ht
+    simp only [Bool.and_eq_true, List.all_eq_true, and_assoc, nodupB_iff] at h
+    obtain ⟨h1, h2, h3, h4, h5, h6, h7, h8, _, h10, h11, _, h13, _⟩ := h
+    exact ⟨types, ⟨ht, h1, h2, h3, h4, h5, fun f hf => wfFieldXml_wfFieldXmlE (h6 f hf), h7, h8, h10, h11, h13⟩⟩
+
+/-- the same unpacking for the guard with printable enumerated values -/
+theorem wfE_unpack {d : Dict} (h : wfDictE d = true) : ∃ types, WF d types := by
+  unfold wfDictE at h
   split at h
   · cases h
   · rename_i types ht
@@ -700,7 +740,7 @@ theorem parse_ok {d : Dict} {types : TypeTable} (w : WF d types) : ∃ defs, par
     have := handleFields_eq types (d.sections.flatMap fieldsOf) []
       (fun f hfm => by
         have := w.fieldsOk f hfm
-        simp only [wfFieldXml, Bool.and_eq_true] at this
+        simp only [wfFieldXmlE, Bool.and_eq_true] at this
         cases hty : aget f.type types with
         | none => rw [hty] at this; simp at this
         | some ty => exact ⟨ty, rfl⟩)
